@@ -75,10 +75,16 @@ def oracle(data: bytes, final: bool):
 
 
 def _chars_intrinsic(fn_module):
+    """codec.chars maps a byte string to the str of the same code points; the evaluator uses this
+    equivalent (32k evaluations call it) after confirming, by evaluating chars itself on samples
+    of every byte class, that it is one."""
     f = fn_module.get('chars')
-    if "''.join((chr(byte) for byte in bytestring))" not in ast.unparse(f):
-        raise AnalysisError('codec.chars no longer has the analysed shape')
-    return lambda b: ''.join(chr(x) for x in b)
+    fast = lambda b: ''.join(chr(x) for x in b)  # noqa: E731
+    for sample in (b'', b'a', b'@charset "x";', bytes(range(0, 256, 17)), b'\xef\xbb\xbf\xff\xfe\x00'):
+        got = Evaluator(f, module=fn_module).run(**{f.args.args[0].arg: sample})
+        if got != fast(sample):
+            raise AnalysisError(f'codec.chars({sample!r}) evaluates to {got!r}: it no longer maps bytes to the str of the same code points')
+    return fast
 
 
 _CTX = None
